@@ -52,6 +52,9 @@ func walkJPEG(b []byte) []Field {
 		if b[off] != 0xFF {
 			break
 		}
+		for off+4 < len(b) && b[off+1] == 0xFF { // fill bytes
+			off++
+		}
 		m := b[off+1]
 		tag := fmt.Sprintf("s%d.%02X", i, m)
 		fs = append(fs, Field{Name: tag + ".marker", Off: off, Width: 2, Kind: "type"})
